@@ -115,6 +115,9 @@ type Case struct {
 	Reader     string `json:"reader"` // file mmap bytes
 	Prefetch   bool   `json:"prefetch"`
 	Twice      bool   `json:"twice"`
+	// CancelAt: 0 = the build context is never cancelled; -1 = cancelled before Seal; k > 0 = cancelled at
+	// the k-th poll of the context during Seal
+	CancelAt int `json:"cancel_at,omitempty"`
 }
 
 type pair struct{ k, v []byte }
@@ -420,10 +423,18 @@ var errStepBudget = errors.New("c04eng: build step budget exceeded")
 type budgetCtx struct {
 	context.Context
 	calls, budget int64
+	cancelAt      int64
+	cancel        context.CancelFunc
 }
 
 func (b *budgetCtx) Err() error {
 	b.calls++
+	if b.cancelAt > 0 && b.calls >= b.cancelAt && b.cancel != nil {
+		b.cancel()
+	}
+	if err := b.Context.Err(); err != nil {
+		return err
+	}
 	if b.calls > b.budget {
 		return errStepBudget
 	}
@@ -529,7 +540,12 @@ func build(f Format, c Case, ins []pair, dir, tag string) (res buildResult) {
 		res.phase, res.err = "harness", err
 		return
 	}
-	ctx := &budgetCtx{Context: context.Background(), budget: int64(res.numBuckets)*20000 + 1000}
+	cctx, cancel := context.WithCancel(context.Background())
+	defer cancel()
+	ctx := &budgetCtx{Context: cctx, budget: int64(res.numBuckets)*20000 + 1000, cancelAt: int64(c.CancelAt), cancel: cancel}
+	if c.CancelAt < 0 {
+		cancel()
+	}
 	err = b.Seal(ctx, out)
 	if err != nil {
 		res.err = err
@@ -815,6 +831,9 @@ func RunCase(f Format, c Case, rec *ev.Recorder, st *stats, dir string) (violate
 			rec.Count("expected_error_"+cond, 1)
 		case overfull:
 			decided("overfull_error")
+		case c.CancelAt != 0 && (errors.Is(r1.err, context.Canceled) || errors.Is(r1.err, context.DeadlineExceeded)):
+			// the build was cancelled and says so: the builder may not honour the inserts, and it failed loudly
+			decided("cancelled_error")
 		case environmental(r1.err):
 			rec.Inconclusive(fmt.Sprintf("%+v: file-system error during %s: %v", c, r1.phase, r1.err))
 		default:
@@ -1004,6 +1023,15 @@ func Cases(f Format, seed int64, thorough bool) []Case {
 			c.Reader = "mmap" // one pread per tree level and key: keep most large cases off the syscall path
 		}
 		return c
+	}
+
+	// 0. cancelled builds: a context cancelled before or during Seal must make Seal fail (or leave a complete
+	// index) - never an index that silently lacks entries
+	for i, ca := range []int{-1, 1, 2, 3, 7, 40} {
+		c := base(i, "cancelled", []int{50, 3000, 25000}[i%3])
+		c.CancelAt = ca
+		c.Twice = false
+		cs = append(cs, c)
 	}
 
 	// A. bucket sizes: one bucket with exactly n entries (every eytzinger layout)
